@@ -717,10 +717,10 @@ def run(ctx):
     real_size = md._INITIAL_MMAP_SIZE
     quick = ctx.tier == 'quick'
     depth = 4 if quick else 5
-    n_random = 120 if quick else 4000
+    n_random = 120 if quick else 2500
     if ctx.broken:
         n_random *= 3
-    budget = (30 if quick else 400) + (15 if ctx.broken and quick else 0)
+    budget = (30 if quick else 330) + (15 if ctx.broken and quick else 0)
     ctx.rule = ('histories of write_value / read_value / close+reopen on one store file, each run with the real initial size (%d) and with '
                 '_INITIAL_MMAP_SIZE patched to %d: fixed witnesses (every key length 0..17, 2/3/4-byte UTF-8 keys, empty key, every double '
                 'class incl. quiet/signalling NaN payloads of both signs, -0.0, subnormals, keys forcing 1/2/5 doublings, 70 KB/140 KB/300 KB keys at '
